@@ -70,6 +70,14 @@ fn canonical_in(ast: &Ast, idx: AstIndex, opts: CanonOpts, depth: usize, parent:
     let mut d = node_debug(ast, idx);
     let kind_owned = kind_of(&d).to_string();
     let my_kind = kind_owned.as_str();
+    if opts.ignore_cosmetic && my_kind == "Debug" {
+        // `debug` records the source text of its expression: layout dependent by design
+        if let (Some(a), Some(b)) = (d.find("expression_string: "), d.find(", expression: ")) {
+            if a < b {
+                d.replace_range(a..b, "expression_string: _");
+            }
+        }
+    }
     if opts.ignore_cosmetic {
         for (from, to) in [
             ("inline: true", "inline: _"),
